@@ -27,14 +27,14 @@ type stdVariant struct {
 const stdNames = `svc.test, sos@svc2.test, urn:service:sos, ^.+@emergency\.test$, tel:\+?1\d+`
 
 type stdSvc struct {
-	in    *labInst
-	v     stdVariant
-	model *mModel
-	uas   []*labEP // UDP user agents (.10-.13:5060)
-	uas2  []*labEP // same addresses, port 6010
-	eps   []*labEP // every harness endpoint
-	tcpUA map[string]*labTCPConn
-	seq   int
+	in     *labInst
+	v      stdVariant
+	model  *mModel
+	uas    []*labEP // UDP user agents (.10-.13:5060)
+	uas2   []*labEP // same addresses, port 6010
+	eps    []*labEP // every harness endpoint
+	tcpUA  map[string]*labTCPConn
+	seq    int
 	primed bool
 }
 
@@ -245,4 +245,3 @@ func c03OwnRoute(rt *rapid.T, s *stdSvc, L *mTransport) ANameAddr {
 	}
 	return ANameAddr{URI: u}
 }
-
